@@ -1,4 +1,4 @@
-#!/usr/bin/env python3
+#!/venv/bin/python
 """Regenerate MANIFEST.json from the set of property modules that exist.
 
 A property is claimed iff pv/props/cNN.py exists and defines MANIFEST_TEXT
@@ -12,6 +12,7 @@ import sys
 
 HERE = os.path.dirname(os.path.dirname(os.path.abspath(__file__)))
 sys.path.insert(0, HERE)
+sys.path.insert(0, os.path.join(HERE, '.deps'))
 
 NOT_BUILT = "check not built yet in this round (planned, see DESIGN.md section 5)"
 
